@@ -87,6 +87,7 @@ impl ChunkCreator for LogCreator {
     type Error = grenad::Error;
     fn create(&self) -> Result<LogChunk, grenad::Error> {
         if let Some(kind) = crate::io::on_call("create") {
+            self.log.borrow_mut().push(json!({"ev": "CreateFail"}));
             return Err(match kind.as_str() {
                 "create:fmt" => grenad::Error::InvalidFormatVersion,
                 "create:codec" => grenad::Error::InvalidCompressionType,
@@ -116,6 +117,8 @@ pub struct SCfg {
     pub mode: u8,
     /// merge function: concatenation, or join with ',' (shows where empty values are)
     pub join: bool,
+    /// the caller retries an insert that failed (used with a transient chunk-creator failure)
+    pub retry: bool,
 }
 
 impl SCfg {
@@ -244,7 +247,12 @@ where
         .index_levels(cfg.chunk.levels);
     let mut sorter = b.chunk_creator(creator).build();
     for (i, (k, v)) in inserts.iter().enumerate() {
-        let r = sorter.insert(k, v).map_err(|e| e.to_string());
+        let mut r = sorter.insert(k, v).map_err(|e| e.to_string());
+        if r.is_err() && cfg.retry {
+            // log the failed call, then the caller tries the same entry again
+            on_insert(i, r);
+            r = sorter.insert(k, v).map_err(|e| e.to_string());
+        }
         let failed = r.is_err();
         on_insert(i, r);
         if failed {
@@ -392,6 +400,7 @@ pub fn random_scfg(r: &mut R, small_scale: bool) -> SCfg {
         creator: *pick(r, &[0u8, 0, 0, 1, 2]),
         mode: r.gen_range(0..3),
         join: r.gen_bool(0.4),
+        retry: false,
     }
 }
 
@@ -405,6 +414,17 @@ pub fn scn_sorter(out: &mut TraceOut, r: &mut R, idx: u64, heavy: bool) {
         1 => r.gen_range(10..120),
         _ => r.gen_range(50..if heavy { 3000 } else { 600 }),
     };
+    // corner: one key inserted thousands of times within a single in-memory batch
+    if idx % 41 == 7 {
+        cfg.hook = Some((1 << 17, 1 << 16));
+        cfg.threads = 0;
+        let key = vec![b'd', b'u', b'p'];
+        let n = 2600 + (idx as usize % 5) * 300;
+        let inserts: Vec<Entry> = (0..n).map(|i| (if i % 97 == 0 { vec![b'z'] } else { key.clone() }, stoken(i as u32 + 1, if i % 3 == 0 { 0 } else { 8 }))).collect();
+        let ids: Vec<u32> = (1..=n as u32).collect();
+        run_logged(out, &cfg, &inserts, &ids);
+        return;
+    }
     // corner: only empty-key / empty-value entries
     let only_empty = idx % 37 == 5;
     let mut inserts = Vec::new();
@@ -437,6 +457,13 @@ pub fn scn_spill(out: &mut TraceOut, r: &mut R, _idx: u64, heavy: bool) {
     cfg.creator = 0;
     cfg.chunk.codec = *pick(r, &[0u8, 5]);
     let (t, _) = cfg.hook.unwrap();
+    if _idx % 4 == 3 {
+        // the chunk creator fails once (k-th creation); the caller retries the insert and goes on
+        cfg.retry = true;
+        let k = r.gen_range(1..6);
+        crate::io::reset(crate::io::Sched::Whole, crate::io::Sched::Whole,
+            Some(crate::io::Fault { comp: "create".into(), k, kind: "create:io".into() }));
+    }
     let max_e = (t / 4).saturating_sub(16);
     let uni: Vec<Vec<u8>> = key_universe(r).into_iter().filter(|k| k.len() <= max_e / 2).collect();
     let uni = if uni.is_empty() { vec![vec![]] } else { uni };
